@@ -139,6 +139,19 @@ CHECKS = {
              "gzip), not by TLA+; environment rules in DESIGN 3.1j.",
         technique=TECH,
     ),
+    "C11": dict(
+        engine="QtlRotation",
+        level="model_checking",
+        text="The fatal path is part of QtlRotation / MC_Rotation: any history, then the fatal record, the flush Logger::processMessage "
+             "performs, then Abort; TLC proves FatalDurableInv (nothing left in QFile's buffer at the abort, every record flushed) on "
+             "MC_Rot_C11_<tier>.cfg, and a variant without the flush must violate it. Binding: child processes killed by qFatal (plain / "
+             "rotating sinks, 1-3 sinks flat, nested or via the one-line configure, an earlier sink whose flush() fails, 0-5000 preceding "
+             "messages around the 16 KiB buffer, fatal from a secondary thread); the interposer's libc events and the files found after the "
+             "death are validated by TLC (event Fatal requires FatalDurable and the spec's directory).",
+        design="5/C11",
+        note="Synchronous logger only (as the statement says); the kernel is assumed to keep completed write() calls across abort().",
+        technique=TECH,
+    ),
     "C15": dict(
         engine="QtlCategory",
         level="model_checking",
